@@ -13,7 +13,7 @@ cd /verif
 mkdir -p $sd/evidence
 if [ -n "$only" ]; then VERIF_REPO=$wt VERIF_BUILD_DIR=$bd VERIF_EVIDENCE_DIR=$sd/evidence ./check $prop --tier $tier --only "$only" > $sd/check.out 2> $sd/check.err
 else VERIF_REPO=$wt VERIF_BUILD_DIR=$bd VERIF_EVIDENCE_DIR=$sd/evidence ./check $prop --tier $tier > $sd/check.out 2> $sd/check.err; fi
-rc=$?
+rc=$?; echo $rc > $sd/check.rc
 mv -f $sd/evidence/$prop*.json $sd/evidence.with_patch.json 2>/dev/null; rmdir $sd/evidence 2>/dev/null
 git -C /repo worktree remove --force $wt >/dev/null 2>&1; rm -rf $wt $bd
 echo "== $id: exit $rc"; grep "VIOLATION\|PROOF-LOST\|UNDECIDED\|KNOWN" $sd/check.out | cut -c1-250; tail -n 1 $sd/check.out
